@@ -192,3 +192,44 @@ func HarnessC10TypeSubst() {
 	}
 	zzverif.Reached("c10-typesubst-end")
 }
+
+// HarnessC10StringCast: the string-casting mangler (every leaf becomes a *string for the source
+// to fill): a string leaf gets back exactly the text that was written, whitespace included; an
+// integer leaf the parsed value.
+func HarnessC10StringCast() {
+	type cfg struct {
+		S string
+		N int16
+		B []string
+	}
+	t := ptrify.Pointerify(reflect.TypeOf(cfg{}), reflect.Value{})
+	tfm := NewTransformer(t, &StringCastingMangler{})
+	val, err := tfm.Translate()
+	zzverif.Assert(err == nil, "C10 string casting: Translate failed")
+	if err != nil {
+		return
+	}
+	txt := zzverif.Bytes("txt", 2)
+	sS, sN := zzverif.Bool("S"), zzverif.Bool("N")
+	if sS {
+		x := txt
+		val.FieldByName("S").Set(reflect.ValueOf(&x))
+	}
+	if sN {
+		x := "12"
+		val.FieldByName("N").Set(reflect.ValueOf(&x))
+	}
+	out, rerr := tfm.ReverseTranslate(val)
+	zzverif.Assert(rerr == nil, "C10 string casting: ReverseTranslate failed")
+	if rerr != nil {
+		return
+	}
+	zzverif.Assert(out.FieldByName("S").IsNil() == !sS && out.FieldByName("N").IsNil() == !sN && out.FieldByName("B").IsNil(), "C10 string casting: a leaf is set although nothing was written to it, or lost although something was")
+	if sS && !out.FieldByName("S").IsNil() {
+		zzverif.Assert(zzverif.StrEq(out.FieldByName("S").Elem().String(), txt), "C10 string casting: a string leaf does not hold exactly the text written to its translated counterpart")
+	}
+	if sN && !out.FieldByName("N").IsNil() {
+		zzverif.Assert(out.FieldByName("N").Elem().Int() == 12, "C10 string casting: an integer leaf does not hold the parsed value")
+	}
+	zzverif.Reached("c10-stringcast-end")
+}
